@@ -519,6 +519,39 @@ pub fn replay(v: &serde_json::Value) -> Result<Option<String>, String> {
 /// Write-side back-pressure: the client pipelines many gets of a large item and does not read
 /// until the server is blocked on a full socket; every response must still arrive whole, in
 /// order, frame after frame (C11: body length = bytes that follow; C12: one response per request).
+/// For C11 (a client can always match responses to its requests): connections that end with bytes
+/// still unconsumed - requests pipelined behind quit / quitq / an undefined opcode - followed by
+/// a fresh connection that sends one noop and must receive exactly that noop's answer.
+pub fn correlation_across_connections(_tier: Tier, threads: usize) -> (u64, Vec<(String, String)>, Option<String>) {
+    let alpha = alphabet();
+    let n = alpha.len();
+    let enders: Vec<usize> = (0..n).filter(|i| matches!(alpha[*i], Elt::Quit | Elt::QuitQ | Elt::Undefined(..))).collect();
+    let mut streams: Vec<Vec<usize>> = vec![];
+    for a in 0..n {
+        for e in &enders {
+            for b in [0usize, 7, 16, 31] {
+                streams.push(vec![a, *e, b.min(n - 1)]);
+            }
+        }
+    }
+    let res = par_map(&streams, threads, |_, sq| run_stream(&alpha, sq, false, None, false));
+    let mut viol: Vec<(String, String)> = vec![];
+    let mut err = None;
+    for r in res {
+        match r {
+            Err(e) => err = Some(e),
+            Ok(o) => {
+                if let Some((sig, what)) = o.viol {
+                    if sig.starts_with("next-connection") && !viol.iter().any(|v| v.0 == sig) {
+                        viol.push((sig, what));
+                    }
+                }
+            }
+        }
+    }
+    (streams.len() as u64, viol, err)
+}
+
 pub fn backpressure(tier: Tier) -> (u64, Vec<(String, String)>, Option<String>) {
     let mut out = vec![];
     let mut n = 0u64;
@@ -583,6 +616,75 @@ pub fn backpressure(tier: Tier) -> (u64, Vec<(String, String)>, Option<String>) 
                 Ok(Some(what)) => out.push((
                     "backpressure|get".to_string(),
                     format!("{} pipelined getk of a {}-byte item, responses read only after the server blocked on the full socket: {}", gets, size, what),
+                )),
+                Ok(None) => {}
+                Err(e) => return (n, out, Some(e)),
+            }
+        }
+    }
+    // a client that reads late while the server closes: pipelined gets, then quit (or the client's
+    // FIN); the first read only after the server has run - every response must still arrive, whole,
+    // followed by a clean end of stream
+    for &(size, gets) in &[(65_536usize, 2usize), (65_536, 6), (262_144, 4)] {
+        for ending in ["quit", "fin"] {
+            n += 1;
+            let r = (|| -> Result<Option<String>, String> {
+                let w = net::NetWorld::new(NetCfg { item_limit: 1 << 20, ..Default::default() })?;
+                let mut c = w.connect()?;
+                let value: Vec<u8> = (0..size).map(|i| (i % 241) as u8).collect();
+                c.step(&w, &Req::store(op::SET, b"big", &value, 7, 0, 0).opaque(1).bytes())?;
+                c.got.clear();
+                let mut reqs = vec![];
+                for i in 0..gets {
+                    reqs.extend(Req::get(op::GET, b"big").opaque(0x200 + i as u32).bytes());
+                }
+                let expect = if ending == "quit" {
+                    reqs.extend(Req::bare(op::QUIT).opaque(0x2ff).bytes());
+                    gets + 1
+                } else {
+                    gets
+                };
+                c.send(&w, &reqs)?;
+                if ending == "fin" {
+                    c.shutdown_write(&w);
+                }
+                w.settle();
+                w.settle();
+                let mut idle = 0;
+                let mut last = 0usize;
+                for _ in 0..200_000 {
+                    c.pump();
+                    w.settle();
+                    if c.eof {
+                        break;
+                    }
+                    if c.got.len() == last {
+                        idle += 1;
+                        if idle > 50 {
+                            break;
+                        }
+                    } else {
+                        idle = 0;
+                        last = c.got.len();
+                    }
+                }
+                let (resps, residue) = wire::split_responses(&c.got);
+                if c.reset || residue != 0 || resps.len() != expect || !c.eof {
+                    return Ok(Some(format!(
+                        "{} of {} responses arrived whole ({} bytes received, {} stray), connection {}",
+                        resps.len(),
+                        expect,
+                        c.got.len(),
+                        residue,
+                        if c.reset { "reset by the server" } else if c.eof { "closed" } else { "still open" }
+                    )));
+                }
+                Ok(None)
+            })();
+            match r {
+                Ok(Some(what)) => out.push((
+                    format!("late-reader|{}", ending),
+                    format!("{} pipelined get of a {}-byte item then {}, first read after the server ran: {}", gets, size, ending, what),
                 )),
                 Ok(None) => {}
                 Err(e) => return (n, out, Some(e)),
